@@ -349,6 +349,22 @@ fn oracle_c13(
 ) {
     for (i, (q, r)) in reqs.iter().zip(reps.iter()).enumerate() {
         let t: Vec<&str> = q.split(' ').collect();
+        if t[0] == "eval2" {
+            *checked += 1;
+            let (row1, n1) = parse_row(&t[1..]).unwrap();
+            let (row2, n2) = parse_row(&t[1 + n1..]).unwrap();
+            let (e, _) = E::parse(&t[1 + n1 + n2..]).unwrap();
+            if let (Some(a), Some(b)) = (e.ref_eval(&row1), e.ref_eval(&row2)) {
+                nontrivial.insert(t[1 + n1 + n2..].join(" "));
+                let want = format!("{} {} {}", a.tok(), b.tok(), a.tok());
+                if r == "panic" {
+                    fail(fails, i, q, r, "evaluation (or construction) panicked".into());
+                } else if *r != want {
+                    fail(fails, i, q, r, format!("one expression evaluated on two rows (and on the first again): documented semantics give {want}"));
+                }
+            }
+            continue;
+        }
         if t[0] != "eval" {
             continue;
         }
